@@ -98,3 +98,22 @@ class NullLog:
         self.records.append(("error", msg))
 
     debug = info
+
+
+def tick_nodrain(v, dt):
+    """Timer phase of ONE loop iteration on a vp.env.VEnv: advance the clock by dt and run every due
+    timer callback in (deadline, insertion) order WITHOUT draining the callback queue in between (a real
+    asyncio iteration runs all due timers before the callbacks they enqueue).  The caller may then act
+    'inside the iteration' before calling v.run_ready()."""
+    v.run_ready()
+    target = v.now + dt
+    while True:
+        v.timers = [h for h in v.timers if not h.cancelled]
+        h = v._next_timer(target)
+        if h is None:
+            break
+        v.timers.remove(h)
+        if h.when > v.now:
+            v.now = h.when
+        v._call(h)
+    v.now = target
